@@ -1,7 +1,7 @@
 #!/bin/bash
 # seedkeep.sh <ID> [name]: verify the agent's deliverable in a fresh worktree and, when confirmed, keep it as /verif/seeded/<name>/.
 set -u
-id=$1; name=${2:-$id}; src=/tmp/seed/$id
+id=$1; name=${2:-$id}; src=${3:-/tmp/seed}/$id
 out=$(/verif/tools/seedverify.sh $id $src 2>&1)
 echo "$out" | tail -12
 clean=$(echo "$out" | awk '/demo on clean tree/{getline; print}')
